@@ -3,6 +3,7 @@ package dmg
 import (
 	"bytes"
 	"testing"
+	"time"
 
 	"github.com/hashicorp/raft"
 	wal "github.com/hashicorp/raft-wal"
@@ -29,6 +30,7 @@ func FuzzDecode(f *testing.F) {
 	f.Add(bytes.Repeat([]byte{0x80}, 10))
 	f.Add([]byte{1, 1, 0, 0xff, 0xff, 0xff, 0xff, 0x0f})
 	f.Add([]byte{})
+	f.Add([]byte("000\x00\x00\x02000000000000\x8000")) // zone offset -32720m48s: stdlib does not round-trip it
 	f.Fuzz(func(t *testing.T, b []byte) {
 		_, refErr := refmodel.DecodeLog(b)
 		var got raft.Log
@@ -39,8 +41,11 @@ func FuzzDecode(f *testing.F) {
 		if refErr == nil && derr != nil {
 			t.Fatalf("Decode rejected an encoding the documented format accepts %x: %v", b, derr)
 		}
-		if refErr == nil {
-			// round trip: re-encoding what was decoded must decode to the same log
+		if refErr == nil && stdlibTimeRoundTrips(got.AppendedAt) {
+			// round trip: re-encoding what was decoded must decode to the same log. (Zone
+			// offsets with a negative seconds part do not survive time.MarshalBinary in the
+			// standard library itself; the codec is documented to use it, so those are out
+			// of the domain - a false alarm of the thorough tier came from exactly that.)
 			var buf bytes.Buffer
 			if err := (&wal.BinaryCodec{}).Encode(&got, &buf); err == nil {
 				var again raft.Log
@@ -50,6 +55,20 @@ func FuzzDecode(f *testing.F) {
 			}
 		}
 	})
+}
+
+func stdlibTimeRoundTrips(t time.Time) bool {
+	b, err := t.MarshalBinary()
+	if err != nil {
+		return false
+	}
+	var u time.Time
+	if u.UnmarshalBinary(b) != nil || !u.Equal(t) {
+		return false
+	}
+	_, a := t.Zone()
+	_, c := u.Zone()
+	return a == c
 }
 
 func seedFiles(f *testing.F, add func(b []byte)) {
